@@ -53,8 +53,8 @@ for cls, qn in (('Socket', 'socket.Socket.poll'), ('AsyncSocket', 'async_socket.
     c.ensures('sentinel-put-back', 'implies(len(result) > 0, '
               'self.queue.taken_none - old(self.queue.taken_none) == '
               'self.queue.put_none - old(self.queue.put_none))')
-    c.modifies('Queue.items', 'Queue.unf', 'Queue.taken', 'Queue.accepted', 'Queue.put_none',
-               'Queue.taken_none', 'ghost.now')
+    c.modifies('self.queue.items', 'self.queue.unf', 'self.queue.taken', 'self.queue.accepted',
+               'self.queue.put_none', 'self.queue.taken_none', 'ghost.now')
     c.loop(0, invariants=[
         ('no-None', 'forall(lambda k: packets[k] is not None, 0, len(packets))'),
         ('nonempty', 'len(packets) >= 1'),
@@ -64,17 +64,18 @@ for cls, qn in (('Socket', 'socket.Socket.poll'), ('AsyncSocket', 'async_socket.
         ('taken', 'self.queue.taken == old(self.queue.taken) + packets'),
         ('accepted-grows', 'self.queue.accepted[0:len(old(self.queue.accepted))] == '
          'old(self.queue.accepted)')],
-        modifies=['packets', 'pkt', 'Queue.items', 'Queue.unf', 'Queue.taken', 'Queue.accepted',
-                  'Queue.put_none', 'Queue.taken_none'])
+        modifies=['packets', 'pkt', 'self.queue.items', 'self.queue.unf', 'self.queue.taken',
+                  'self.queue.accepted', 'self.queue.put_none', 'self.queue.taken_none'])
 
 FLAGS_SAME = ('self.closing == old(self.closing) and self.closed == old(self.closed) and '
               'self.connected == old(self.connected) and self.upgrading == old(self.upgrading) '
               'and self.upgraded == old(self.upgraded)')
 QUIET = ('events == old(events) and spawned == old(spawned) and '
          'self.queue.accepted == old(self.queue.accepted) and ' + FLAGS_SAME)
-SOCK_MOD = ['self.closing', 'self.closed', 'Queue.items', 'Queue.unf', 'Queue.taken',
-            'Queue.accepted', 'Queue.put_none', 'Queue.taken_none', 'ghost.events', 'ghost.now',
-            'ghost.spawned']
+# object-granular frame: this socket and ITS queue only ("never another session", C03/C16)
+SOCK_MOD = ['self.closing', 'self.closed', 'self.queue.items', 'self.queue.unf',
+            'self.queue.taken', 'self.queue.accepted', 'self.queue.put_none',
+            'self.queue.taken_none', 'ghost.events', 'ghost.now', 'ghost.spawned']
 
 # ------------------------------------------------------------------------- check_ping_timeout
 for cls, mod in (('Socket', 'socket'), ('AsyncSocket', 'async_socket')):
@@ -82,7 +83,9 @@ for cls, mod in (('Socket', 'socket'), ('AsyncSocket', 'async_socket')):
     c.param('self', Ref(cls))
     c.returns(BOOL)
     c.requires(SOCK_WF, 'socket-wf')
-    c.raises('SocketIsClosedError', 'self.closed', ensures=[('unchanged', QUIET)])
+    c.raises('SocketIsClosedError', 'self.closed', ensures=[('unchanged', QUIET + ' and '
+             'self.queue.items == old(self.queue.items) and self.queue.unf == '
+             'old(self.queue.unf) and self.queue.taken == old(self.queue.taken)')])
     c.ensures('timeout-iff-deadline-passed', 'result == (not old(ping_expired(self, now)))',
               props=['C07'])
     c.ensures('alive-unchanged', 'implies(result, ' + FLAGS_SAME + ' and events == old(events) '
@@ -116,7 +119,9 @@ for cls, mod in (('Socket', 'socket'), ('AsyncSocket', 'async_socket')):
     c.param('self', Ref(cls)).param('pkt', Ref('Packet'))
     c.requires(SOCK_WF, 'socket-wf')
     c.requires('0 <= pkt.packet_type and pkt.packet_type <= 6', 'packet-type')
-    c.raises('SocketIsClosedError', 'self.closed', ensures=[('unchanged', QUIET)])
+    c.raises('SocketIsClosedError', 'self.closed', ensures=[('unchanged', QUIET + ' and '
+             'self.queue.items == old(self.queue.items) and self.queue.unf == '
+             'old(self.queue.unf) and self.queue.taken == old(self.queue.taken)')])
     c.ensures('enqueued-once', 'implies(not old(ping_expired(self, now)), '
               'self.queue.accepted == old(self.queue.accepted) + [pkt] and '
               'self.queue.items == old(self.queue.items) + [pkt] and ' + FLAGS_SAME +
